@@ -274,6 +274,14 @@ def rule_d(model, rep):
                 rep.check(not later_parse, R, site(q) + " mtime after parse", f"`{ast.unparse(st)}` precedes the `_load_lines(...)` call of the same block",
                           "the remembered mtime is updated only after the input parsed completely",
                           witness="another writer leaves a malformed line: the first load_if_changed() raises (records untouched), the second returns False -- the file's content is never loaded although it changed")
+    # ... and every loader that replaces the records from a source other than the bound file forgets the remembered mtime: the file is
+    # then "changed" as far as load_if_changed() is concerned
+    from pv.q import must_assign
+    f2 = model.func(AP, "_CommonFile.load_string")
+    vals = [ast.unparse(a.value) for a in walk_no_nested(f2) if isinstance(a, ast.Assign) and ast.unparse(a.targets[0]) == "self._mtime"]
+    rep.check(must_assign(f2, "self._mtime") and vals == ["0"], R, site("_CommonFile.load_string") + " forgets mtime", f"self._mtime assigned {vals or 'nowhere'}",
+              "load_string() resets the remembered mtime to 0 on every path",
+              witness="HtpasswdFile(path); load_string(other); load_if_changed() returns False and the object keeps exporting the string's records instead of the file's")
     fn = model.func(AP, "_CommonFile.load_if_changed")
     txt = qtext(fn)
     rep.check("if self._mtime and self._mtime == os.path.getmtime(self._path):\n        return False" in txt, R, site("_CommonFile.load_if_changed"),
@@ -287,6 +295,18 @@ def rule_d(model, rep):
 
 def rule_e(model, rep):
     R = "C16.e-parse-render"
+    # records hold bytes (loaded, set_hash) or text (the re-hashed value check_password() stores): the renderer takes both
+    rb = model.func("passlib.utils", "render_bytes")
+    conv = []
+    for g in ast.walk(rb):
+        if isinstance(g, (ast.GeneratorExp, ast.ListComp)) and len(g.generators) == 1 and ast.unparse(g.generators[0].iter) == "args" and isinstance(g.generators[0].target, ast.Name):
+            x = g.generators[0].target.id
+            e = g.elt
+            if isinstance(e, ast.IfExp) and ast.unparse(e.test) in (f"isinstance({x}, bytes)", f"isinstance({x}, str)", f"not isinstance({x}, bytes)", f"not isinstance({x}, str)"):
+                conv.append(ast.unparse(e))
+    rep.check(len(conv) == 1, R, "passlib.utils:render_bytes", conv[0] if conv else "arguments are formatted as they come",
+              "render_bytes() brings every argument to one string type before formatting, whichever of bytes / str it is",
+              witness="after check_password() upgraded a deprecated hash (stored as str), to_string() / save() raise TypeError: %b requires a bytes-like object")
     for cls, nf, tmpl, ret in (("HtpasswdFile", 2, "'%s:%s\\n'", "result"), ("HtdigestFile", 3, "'%s:%s:%s\\n'", "((user, realm), hash)")):
         fn = model.func(AP, cls + "._parse_record")
         txt = qtext(fn)
